@@ -289,6 +289,7 @@ def enumerate_creation(ctx, g: ModelGrammar, decider_cls: str, max_depth: int, c
         state.update(script=list(script), pos=0, widths=[0] * len(script))
         it = Interp(prog, None, lambda *_: None, call_model, max_depth=60, max_traces=2)
         it.allow_recursion = True
+        it.instantiate_classes = True     # per-call helper objects of the repository (one expansion step as a method object) are followed
         it.strict_keys = True
         it.strict_attrs = True       # reading an attribute the object was never given raises, as in Python
         it.strict_iter = True
@@ -325,6 +326,9 @@ def enumerate_creation(ctx, g: ModelGrammar, decider_cls: str, max_depth: int, c
                 failures.append((list(state["script"]), raised[-1].name))
             elif rv is UNKNOWN or rv is None:
                 notes.append(f"script {script}: the result is not followed")
+            elif "UNKNOWN" in text_of(rv):
+                # a part of the program is a value the model lost track of: nothing may be concluded from it
+                notes.append(f"script {script}: a part of the result is not followed ({text_of(rv)[:60]})")
             else:
                 programs.setdefault(text_of(rv), rv)
         if notes:
